@@ -351,6 +351,17 @@ def oracle(case):
 		except Exception as e:
 			fid = 'F20c' if not all(wire_safe(v) for k, v in p.items() if k in ('username', 'realm', 'nonce', 'uri', 'cnonce', 'nc', 'opaque', 'qop', 'algorithm')) or b'=?' in w else None
 			return {'what': 'compose/parse of the field raised %s: %s' % (exc_name(e), e), 'params': describe(case)[1], 'finding': fid}
+		# a second element built from the parameters of the first (a server putting its own data next to them) is a value of its own:
+		# changing it does not change the first, which still composes the same field and still verifies
+		try:
+			e1 = Authorization('Digest', dict(p))
+			e2 = Authorization('Digest', e1.params)
+			e2.params['nonce'] = (p.get('nonce') or b'') + b'-other'
+			e2.params['password'] = b'another password'
+			if bytes(e1) != w:
+				return {'what': 'changing an element built from the parameters of another changed that other: it now composes %r, before %r' % (bytes(e1)[:120], w[:120]), 'params': describe(case)[1], 'finding': None}
+		except Exception as e:
+			return {'what': 'building an element from the parameters of another raised %s: %s' % (exc_name(e), e), 'params': describe(case)[1], 'finding': None}
 		expect = {k: p[k] for k in ('username', 'realm', 'nonce', 'uri', 'algorithm', 'opaque', 'qop') if k in p}
 		expect['response'] = ref
 		if p.get('qop'):
